@@ -2138,6 +2138,9 @@ class SEVM:
         self.fun_info = fun_info
         self.logs = HalmosLogs()
 
+        # whether the --depth limit warning has been issued by this instance
+        self.depth_limit_warned = False
+
         # init storage model
         is_generic = self.options.storage_layout == "generic"
         self.storage_model = GenericStorage if is_generic else SolidityStorage
@@ -3171,10 +3174,13 @@ class SEVM:
                     profiler.increment(opcode, extra)
 
                 if max_depth and step_id > max_depth:
-                    warn(
-                        f"{self.fun_info.sig}: incomplete execution due to the specified limit: --depth {max_depth}",
-                        allow_duplicate=False,
-                    )
+                    # warn once per execution (not once per process: another test, or the same
+                    # signature in another contract, may hit the limit too)
+                    if not self.depth_limit_warned:
+                        self.depth_limit_warned = True
+                        warn(
+                            f"{self.fun_info.sig}: incomplete execution due to the specified limit: --depth {max_depth}"
+                        )
                     continue
 
                 if print_steps:
